@@ -351,7 +351,7 @@ theorem fixedFrom_ne_panic (c : Cfg) (v : Val) : fixedFrom c v ≠ .panic := by
   cases v with
   | num r => simp [fixedFrom]
   | bool b => simp [fixedFrom]
-  | str s => unfold fixedFrom; cases h : FixedText.fromStr64 c.places c.mult s <;> simp [h]
+  | str s => unfold fixedFrom; cases h : FixedText.fromStr64 c.places c.mult s <;> simp [h] <;> split <;> simp
 
 theorem ite_ne_panic {α : Type} (p : Prop) [Decidable p] (a b : VR α) (ha : a ≠ .panic) (hb : b ≠ .panic) :
     (if p then a else b) ≠ .panic := by
